@@ -58,3 +58,41 @@ Definition in_work_dir (p : bytes) : bool := existsb (beq zinoma_name) (componen
 (* the conjunction evaluated by the notify callback for each path of an event *)
 Definition watch_filter (exts : option (list bytes)) (p : bytes) : bool :=
   negb (tmp_editor_path p) && negb (in_work_dir p) && matches_extensions exts p.
+
+(* ---- the directory of a watched FILE (repair D16: watcher.rs is_other_file_in_file_dir) ----
+   Path equality and Path::parent() in Rust go by components: RootDir, a leading CurDir, Normal and ParentDir components.
+   pkey p = (has a root, starts with a CurDir component, the Normal/ParentDir components). *)
+Definition pkey (p : bytes) : bool * bool * list bytes :=
+  let root := starts_with p [slash] in
+  let cur := negb root && match split_on slash p with c :: _ => beq c [dot] | [] => false end in
+  (root, cur, components p).
+
+Fixpoint lbeq (a b : list bytes) : bool :=
+  match a, b with
+  | [], [] => true
+  | x :: a', y :: b' => beq x y && lbeq a' b'
+  | _, _ => false
+  end.
+
+Definition pkey_eqb (a b : bool * bool * list bytes) : bool :=
+  let '(r1, c1, l1) := a in let '(r2, c2, l2) := b in Bool.eqb r1 r2 && Bool.eqb c1 c2 && lbeq l1 l2.
+
+(* Path::parent(): the path without its last component; None for "/" and "" *)
+Definition parent_key (k : bool * bool * list bytes) : option (bool * bool * list bytes) :=
+  let '(root, cur, l) := k in
+  match rev l with
+  | _ :: r => Some (root, cur, rev r)
+  | [] => if cur then Some (false, false, []) else None
+  end.
+
+(* files = the declared paths that are watched as files (each with a parent) *)
+Definition other_in_file_dir (files : list bytes) (p : bytes) : bool :=
+  negb (existsb (fun f => pkey_eqb (pkey f) (pkey p)) files) &&
+  existsb (fun f => match parent_key (pkey f), parent_key (pkey p) with
+                    | Some d, Some q => pkey_eqb q d
+                    | _, _ => false
+                    end) files.
+
+(* the conjunction evaluated by the notify callback after the repair *)
+Definition watch_filter2 (files : list bytes) (exts : option (list bytes)) (p : bytes) : bool :=
+  negb (other_in_file_dir files p) && watch_filter exts p.
